@@ -343,3 +343,19 @@ func callsInstaller(r *engine.Run, g *ssa.Function) bool {
 	})
 	return found
 }
+
+// callsNamed: g (a helper of the trie) calls the trie method of that name directly.
+func callsNamed(g *ssa.Function, name string) bool {
+	if g == nil || len(g.Blocks) == 0 {
+		return false
+	}
+	found := false
+	engine.Instrs(g, func(in ssa.Instruction) {
+		if c, ok := in.(*ssa.Call); ok {
+			if sc := c.Call.StaticCallee(); sc != nil && sc.Name() == name && recvNamed(sc) == recvNamed(g) {
+				found = true
+			}
+		}
+	})
+	return found
+}
